@@ -23,7 +23,10 @@ class HC(HA):
 
 @dataclass(eq=False)
 class HD(HB, HC):
-    pass
+    """a container-like Symbol: its instances (and those of HE) are FALSY, like an empty collection"""
+
+    def __len__(self):
+        return 0
 
 
 @dataclass(eq=False)
